@@ -323,6 +323,23 @@ def build_traces(path, tier, seed):
                      "arr1": arr1, "arr2": arr2})
         meta[tid] = {"kind": "cluster", "k": k, "n": n, "master": master, "steps": steps, "true_lags": lags, "exact": bool(trend or not (i % 2)), "linear_trend": bool(trend),
                      "window": ["start=0, end=%.3f" % end_t, "default (first second), dt=%g" % dt, "start=%.3f only, dt=%g" % (start_t, dt), "start=1, end=-1, dt=%g" % dt][wm]}
+    # records in extremely small units (1e-200): the squared residuals of the lag search underflow, every lag ties and nothing is
+    # removed -- listed as an open finding (known_findings.json, C18-time-match-tiny-units), exercised on every run
+    if True:
+        k, n, steps, master = 2, 40, 4, 0
+        base = np.cumsum(np.random.default_rng(1818).standard_normal(n + 2 * steps)) * 1e-200
+        sigs = [base[steps:steps + n].copy(), base[steps - 2: steps - 2 + n].copy()]
+        with warnings.catch_warnings():
+            warnings.simplefilter("ignore")
+            c = eqsig.Cluster([s_.copy() for s_ in sigs], 0.01, master_index=0, stypes="custom")
+            c.time_match(steps=steps)
+            v1 = [np.array(c.values_by_index(j), dtype=float) for j in range(k)]
+            c.same_start(start=0, end=0.074)
+            v2 = [np.array(c.values_by_index(j), dtype=float) for j in range(k)]
+        tid += 1
+        recs.append({"tid": tid, "kind": "cluster", "k": k, "n": n, "master": 1, "steps": steps, "s": 0, "e": 8,
+                     "v0": [enc_seq(s_) for s_ in sigs], "v1": [enc_seq(s_) for s_ in v1], "v2": [enc_seq(s_) for s_ in v2], "arr1": [True, True], "arr2": [True, True]})
+        meta[tid] = {"kind": "cluster", "k": k, "n": n, "master": 0, "steps": steps, "true_lags": [0, 2], "finding": "tiny-units", "scale": 1e-200}
     write_ndjson(path, recs)
     return meta
 
@@ -350,6 +367,10 @@ def run(tier, seed):
         if t not in r2.verdicts:
             raise tlc.MachineryError("no verdict for tid %d" % t)
         rep.traces += 1
+        if meta[t].get("finding") == "tiny-units":
+            if "LagRemoved" in r2.verdicts[t][0]:
+                rep.fail("LagRemovedAtTinyUnits", "tiny-units", meta[t])
+            continue
         for c in r2.verdicts[t][0]:
             rep.fail(c, "trace:" + meta[t]["kind"], meta[t])
     for t in (1, len(meta) // 2, len(meta)):
